@@ -20,13 +20,10 @@ Every op line is one call on the subject string and is independent of the others
   isident                     s ∈ [a-z][a-z0-9]*(_[a-z][a-z0-9]*)*  (the grammar of the round-trip
                               theorem; compared with the harness's regexp, not with /repo)
 
-Header `@ C17 L <hex>`: LARGE subject (1 000 – 100 000 runes), same op grammar.  The subject is
-decoded once; for a valid UTF-8 subject the ops are answered by the linear rune-slice
-definitions of `Golib/Model/C17Large.lean` (equal to the cursor models by `c17_large_eq_model`);
-`len`, `subd`, `ucfirst`, `lcfirst` always by the (linear) cursor model.  What has no linear
-evaluation answers `skip` (invalid subject, invalid mask, negative argument, non-ASCII
-subject for the case converters); the harness prints `skip` in exactly these situations
-(after making the call, so that a panic is still seen).
+Header `@ C17 L <hex>`: LARGE subject (1 000 – 100 000 runes), same op grammar, every op answered
+by a linear-time evaluator of `Golib/Model/C17Large.lean` that is proved equal to the cursor
+model for every subject (valid UTF-8 or not) and every argument (`c17_large_eq_model`,
+`c17_snake_spec`, `c17_camel_spec`).
 
 Header `@ C17 H`: HISTORY — every op line names its own subject: `on <hex> <op …>` with the
 ops above, plus `on <hex> removepanic <hexset> <nth>`: `RemoveRunes` with a predicate that
@@ -35,8 +32,7 @@ panics at its `nth` invocation (recovered by the caller) — answer `panic-recov
 otherwise the ordinary result.  The functions are pure: the model answers every line from its
 own arguments only, whatever came before (earlier long results, a recovered panic); the
 harness additionally keeps every earlier result with an independent copy (results ledger).
-Subjects above 512 bytes are evaluated as in the large stream (`skip` where that has no
-linear evaluation).
+Subjects above 512 bytes are evaluated as in the large stream.
 
 Header `@ C17 utf8`: the exhaustive tie of the shared UTF-8 prelude to Go's `unicode/utf8`
 (no call into /repo; see `Golib/Model/C17Utf8Tie.lean` for its operations).
@@ -82,7 +78,10 @@ def runOp (s : List Nat) (ts : List String) : String :=
     | none => "bad-op"
   | _ => "bad-op"
 
-def runOpL (s : List Nat) (ok : Bool) (rs : List Int) (ascii : Bool) (ts : List String) : String :=
+/-- Large subjects: every op by a linear-time evaluator that is proved equal to the cursor model
+for EVERY subject and argument (`c17_large_eq_model`, `c17_snake_spec`, `c17_camel_spec`);
+`len`, `subd`, `ucfirst`, `lcfirst` are linear in the cursor model itself. -/
+def runOpL (s : List Nat) (ts : List String) : String :=
   match ts with
   | ["len"] => toString (len s)
   | ["subd", n] =>
@@ -93,26 +92,25 @@ def runOpL (s : List Nat) (ok : Bool) (rs : List Int) (ascii : Bool) (ts : List 
   | ["lcfirst"] => showRes (lcFirst s)
   | ["sub", a, b] =>
     match a.toInt?, b.toInt? with
-    | some a, some b => if ok ∧ 0 ≤ a ∧ -1 ≤ b then hex (subL rs a b) else "skip"
+    | some a, some b => showRes (subF s a b)
     | _, _ => "bad-op"
   | ["mask", m, a, b] =>
     match unhex m, a.toInt?, b.toInt? with
-    | some m, some a, some b =>
-      if ok ∧ valid m ∧ 0 ≤ a ∧ 0 ≤ b then hex (maskL s rs (runes m) a.toNat b.toNat) else "skip"
+    | some m, some a, some b => showRes (maskF s m a b)
     | _, _, _ => "bad-op"
-  | ["rev"] => if ok then hex (revL rs) else "skip"
+  | ["rev"] => hex (revF s)
   | ["remove", set] =>
     match unhex set with
-    | some set => if ok then (let q := runes set; hex (removeL rs fun r => q.contains r)) else "skip"
+    | some set => let q := runes set; hex (removeF s fun r => q.contains r)
     | none => "bad-op"
   | ["s2c", b] =>
     match parseBool? b with
-    | some b => if ascii then hex (snakeL s b false) else "skip"
+    | some b => hex (snakeB s.length s b false)
     | none => "bad-op"
-  | ["c2s"] => if ascii then hex (camelL s false) else "skip"
+  | ["c2s"] => hex (camelB s.length s false)
   | ["round", b] =>
     match parseBool? b with
-    | some b => if ascii then hex (camelL (snakeL s b false) false) else "skip"
+    | some b => let c := snakeB s.length s b false; hex (camelB c.length c false)
     | none => "bad-op"
   | _ => "bad-op"
 
@@ -130,11 +128,11 @@ def runOpH (ts : List String) : String :=
           if 1 ≤ nth ∧ nth ≤ runeCount s then "panic-recovered"
           else if s.length ≤ 512 then
             (let q := runes set; showRes (removeRunes s fun r => q.contains r))
-          else runOpL s (valid s) (runes s) (s.all (· < 0x80)) ["remove", hex set]
+          else runOpL s ["remove", hex set]
         | _, _ => "bad-op"
       | _ =>
         if s.length ≤ 512 then runOp s rest
-        else runOpL s (valid s) (runes s) (s.all (· < 0x80)) rest
+        else runOpL s rest
   | _ => "bad-op"
 
 /-- Entry point of the C17 section of the oracle: header tokens after `@ C17`. -/
@@ -146,11 +144,7 @@ def runCase (hdr : List String) (ops : List String) : List String :=
     | none => "bad-op" :: ops.map fun _ => "bad-op"
   | ["L", h] =>
     match unhex h with
-    | some s =>
-      let ok := valid s
-      let rs := runes s
-      let ascii := s.all (· < 0x80)
-      "ok" :: ops.map fun l => runOpL s ok rs ascii (toks l)
+    | some s => "ok" :: ops.map fun l => runOpL s (toks l)
     | none => "bad-op" :: ops.map fun _ => "bad-op"
   | ["H"] => "ok" :: ops.map fun l => runOpH (toks l)
   | ["utf8"] => Tie.runCase ops
